@@ -16,47 +16,7 @@ from ..analysis import effects
 from ..facts import CannotDecide
 from ..mir import Prov, show
 from ..structured import listing, Unstructured
-
-MASK = {"u8": 0xff, "u16": 0xffff, "u32": 0xffffffff, "u64": (1 << 64) - 1, "usize": (1 << 64) - 1}
-
-
-class NoEval(Exception):
-    pass
-
-
-def ieval(t, env):
-    k = t[0]
-    if k == "const":
-        return t[2]
-    if k == "var":
-        if t[1] not in env:
-            raise NoEval("unbound %s" % t[1])
-        return env[t[1]]
-    if k == "cast":
-        v = ieval(t[1], env)
-        return v & MASK.get(t[2], (1 << 64) - 1)
-    if k == "fld" and t[3] == "0" and t[1][0] == "bin" and t[1][1].endswith("WithOverflow"):
-        return ieval(("bin", t[1][1].replace("WithOverflow", ""), t[1][2], t[1][3]), env)
-    if k == "bin":
-        a, b = ieval(t[2], env), ieval(t[3], env)
-        op = t[1]
-        if op in ("Shl", "Shr") and not 0 <= b < 64:
-            raise NoEval("shift")
-        f = {"Add": lambda: a + b, "Sub": lambda: a - b, "Mul": lambda: a * b, "Shl": lambda: a << b, "Shr": lambda: a >> b,
-             "BitAnd": lambda: a & b, "BitOr": lambda: a | b, "BitXor": lambda: a ^ b, "Eq": lambda: int(a == b), "Ne": lambda: int(a != b),
-             "Lt": lambda: int(a < b), "Le": lambda: int(a <= b), "Gt": lambda: int(a > b), "Ge": lambda: int(a >= b),
-             "Rem": lambda: a % b if b else None, "Div": lambda: a // b if b else None}.get(op)
-        if f is None:
-            raise NoEval(op)
-        return f()
-    if k == "un" and t[1] == "Not":
-        return int(not ieval(t[2], env))
-    if k == "call" and re.search(r"slice::<impl \[T\]>::len$", t[1]) and t[2] == (("arg", 1),):
-        return env["#n"]
-    if k == "len" and t[1] == ("arg", 1):
-        return env["#n"]
-    raise NoEval(show(t, -6))
-
+from ..ieval import ieval, NoEval
 
 GRID = [{"count": cnt, "level": lv, "#n": n} for cnt in range(0, 70) for lv in range(0, 8) for n in (0, 1, 2, 3, 5, 8, 69, 70)]
 
